@@ -130,8 +130,8 @@ def run_case(case):
             # values
             if log:
                 v = np.exp(rng.uniform(np.log(start), np.log(stop), 200))
-                v = np.concatenate([v, ref[:-1] * 0.5 + ref[1:] * 0.5])
-                v = v[(v >= arr[0]) & (v <= arr[-1])]
+                v = np.concatenate([v, ref[:-1] * 0.5 + ref[1:] * 0.5, [start, stop]])  # range is closed: [start, stop]
+                v = v[(v >= start) & (v <= stop)]
             else:
                 v = rng.uniform(start - 0.5 * (stop - start), stop + 0.5 * (stop - start), 200)
                 v = np.concatenate([v, ref[:-1] * 0.5 + ref[1:] * 0.5, [start - (stop - start), stop + (stop - start)]])
